@@ -181,6 +181,17 @@ func c06Programs(tier string) []*Spec {
 			}
 		}
 	}
+	// a priority change addressed to a bar that has already completed (and stays on screen)
+	for _, lazy := range []bool{false, true} {
+		sp := &Spec{Name: fmt.Sprintf("c06-after-complete-%v", lazy), Refresh: "manual", Q: -1}
+		for i := 0; i < 3; i++ {
+			sp.Bars = append(sp.Bars, BarSpec{Total: 1})
+			sp.Main = append(sp.Main, Op{K: "add", B: i})
+		}
+		sp.Main = append(sp.Main, Op{K: "refresh"}, Op{K: "incr", B: 0, N: 1}, Op{K: "refresh"}, Op{K: "refresh"}, Op{K: "refresh"},
+			Op{K: "prio", B: 0, N: 9, F: lazy}, Op{K: "refresh"}, Op{K: "refresh"}, Op{K: "refresh"}, Op{K: "incr", B: 1, N: 1}, Op{K: "incr", B: 2, N: 1}, Op{K: "refresh"}, Op{K: "refresh"})
+		out = append(out, sp)
+	}
 	// priorities at the ends of the int range, also next to popped bars (which get math.MinInt32 + k internally)
 	for _, pop := range []bool{false, true} {
 		for vi, vals := range [][]int{{math.MaxInt, math.MinInt, 0}, {-1, math.MaxInt, 1}, {math.MaxInt, 0, math.MinInt32}} {
